@@ -33,6 +33,14 @@ def stepSpec (line : String) : String :=
       | some es => Spec.renderReport es
       | none => "undef"
     | _, _ => "bad-op"
+  | ["specn", d, v] =>
+    -- as "spec", for declarations in which nested anonymous structs carry markers of their own
+    match (readSx d).bind sxDecl, (readSx v).bind sxVal with
+    | some decl, some val =>
+      match Spec.violatedN decl val with
+      | some es => Spec.renderReport es
+      | none => "undef"
+    | _, _ => "bad-op"
   | ["polls", d] =>
     match (readSx d).bind sxDecl with
     | some decl => toString (Spec.validatedFields decl)
